@@ -37,6 +37,21 @@ Local Open Scope Z_scope.
 
 MODES = ['cudd', 'nocudd-autoref', 'nocudd-cudd']
 
+# regression inputs of the repaired defects F4 (negative inputs) and F7
+# (Boolean inputs), always run first
+REGRESSION = [
+    dict(decl={'x': (-3, 3), 'y': (-4, 4)}, out_vars=["y'"],
+         rel=('formula', "y' = x"), mode='cudd'),
+    dict(decl={'x': (-4, -1), 'y': (-4, 4)}, out_vars=["y'"],
+         rel=('formula', "y' = x"), mode='nocudd-autoref'),
+    dict(decl={'x': (0, 3), 'b': 'bool'}, out_vars=["b'"],
+         rel=('formula', "b' <=> (x > 1)"), mode='cudd'),
+    dict(decl={'x': (0, 3), 'b': 'bool'}, out_vars=["x'"],
+         rel=('formula', "x' = IF b THEN 1 ELSE 2"), mode='nocudd-cudd'),
+    dict(decl={'x': (1, 6), 'y': (1, 6)}, out_vars=["y'"],
+         rel=('formula', "y' = (x - y)"), mode='cudd'),
+]
+
 
 # ------------------------------------------------------------------ tie G
 def extract_tables():
@@ -100,11 +115,24 @@ def tables_v(langs, used):
     return '\n'.join(out) + '\n'
 
 
+
+def _count_theory_lemmas(ctx, names):
+    """Lemmas of the hand-written proof files (already checked by the build
+    of THEORIES) are obligations of this check too."""
+    for nm in names:
+        rel = f'theories/L7Codegen/{nm}.v'
+        with open(os.path.join(core.COQ, rel)) as f:
+            found = core.theorem_names(f.read())
+        ctx.obligations += [f'{rel}:{x}' for x in found]
+        ctx.discharged += len(found)
+
+
 def prove(ctx):
     with ctx.coq_lock():
         langs, used = extract_tables()
         ctx.write_gen('gen/C13_tables.v', tables_v(langs, used))
         ctx.prove('Properties/C13.v')
+    _count_theory_lemmas(ctx, ['BitsProofs', 'DagProofs', 'StepProofs'])
     ctx.extra['languages_table'] = langs
     ctx.extra['syntax_keys_used'] = used
     ctx.trusted.append(
@@ -287,7 +315,7 @@ def bits_terms():
 
 # ---------------------------------------------------------- correspond
 def correspond(ctx):
-    n_emit, n_step = (900, 1600) if ctx.thorough else (60, 100)
+    n_emit, n_step = (1000, 2500) if ctx.thorough else (90, 170)
     mism = []
     # (c)
     try:
@@ -322,7 +350,10 @@ def correspond(ctx):
             samples.append(dict(case, code=info['code_sample']))
     # (b)
     for i in range(n_step):
-        case = st.rand_case(ctx.rng, MODES[i % 3])
+        if i < len(REGRESSION):
+            case = dict(REGRESSION[i])
+        else:
+            case = st.rand_case(ctx.rng, MODES[i % 3])
         cj = step_case_json(case)
         try:
             term, res = run_step(case)
@@ -346,6 +377,7 @@ def correspond(ctx):
         meta.append(('step', cj, term))
         stats['step_instances'] += 1
         stats['step_states'] += len(res['results'])
+        stats['step_solvable_states'] += res.get('n_solvable', 0)
         if res['missing']:
             stats['step_missing_bits'] += 1
         if any(k != 'bool' and k[0] < 0 for k in case['decl'].values()):
@@ -435,13 +467,22 @@ def check_case(case):
     return None
 
 
+def _cls(f):
+    w = f.what
+    return 'raised' if 'raised' in w else w
+
+
 def search(ctx, broken, mismatches):
-    for m in mismatches:
+    found, seen = [], set()
+    for m in mismatches[:40]:
         if m.case is None:
             continue
         f = check_case(m.case)
-        if f:
-            return [f]
+        if f and _cls(f) not in seen:
+            seen.add(_cls(f))
+            found.append(f)
+    if found:
+        return found[:3]
     budget = 3000 if ctx.thorough else 600
     for i in range(budget):
         if i % 3 == 0:
